@@ -592,6 +592,12 @@ func (stmt *CreateTableStmt) execAt(ctx context.Context, tx *SQLTx, params map[s
 		} else {
 			nextUnnamedCheck++
 		}
+		if _, exists := checks[name]; exists {
+			// constraints are identified by name: a second one with the same name (explicit, or generated for an
+			// unnamed constraint) would silently replace the first one
+			return nil, fmt.Errorf("%w: constraint name '%s' is used more than once", ErrIllegalArguments, name)
+		}
+
 		check.id = uint32(id)
 		check.name = name
 		checks[name] = check
